@@ -142,3 +142,19 @@ def true_dist_matrix(cfg, X, y, mixing=None):
 
 def tol_of(D):
     return 1e-8 * max(1.0, float(np.max(np.abs(D)))) if D.size else 1e-8
+
+
+def record_scores(sel):
+    """harness-side instrumentation (instance attribute, no source change): remember the score of
+    every greedy pick together with the reference first score"""
+    sel._symx_pick_scores = []
+    orig = sel._get_best_new_selection
+
+    def rec(scorer, X, y):
+        r = orig(scorer, X, y)
+        if r is not None:
+            sel._symx_pick_scores.append((int(sel.n_selected_), scorer(X, y)[r], sel.first_score_))
+        return r
+
+    sel._get_best_new_selection = rec
+    return sel
